@@ -109,6 +109,14 @@ pub fn build_image(seed: u64) -> Result<Image, String> {
         apply(&mut expected, &b);
         wal_batches.push(b);
     }
+    if seed % 4 == 1 {
+        // a value of 40 KB as the last operation of a batch: its WAL record spans two 32 KiB blocks
+        // (First + Last fragments), so the type bytes of a fragmented WAL record are damaged too
+        let b: BatchOps = vec![(b"zz-small".to_vec(), Some(b"s".to_vec())), (b"zz-big".to_vec(), Some((0..40_000u32).map(|i| (i % 251) as u8).collect()))];
+        write_batch(&db, &b)?;
+        apply(&mut expected, &b);
+        wal_batches.push(b);
+    }
     db.verif_wait_idle(std::time::Duration::from_secs(20));
     std::panic::catch_unwind(std::panic::AssertUnwindSafe(move || drop(db))).map_err(|_| "panic in close".to_string())?;
     if std::env::var("VERIF_TRACE").is_ok() {
@@ -462,7 +470,7 @@ pub fn check_one(img: &Image, path: &PathBuf, m: &Mutation, rep: &mut Report) ->
 }
 
 pub fn rule() -> &'static str {
-    "small database images (5-25 batches compacted into table files with 64 B-1 KiB blocks, 2-9 batches left in the write-ahead log, clean close) on SimFs; every offset of every persistent file up to the per-file budget (an even sample beyond) x {flip one bit, zero the byte, set a random byte}, plus table truncations at sampled lengths; each mutated copy is opened, scanned and probed with gets of every key ever written. Non-trivial = the mutation changed the file; distinct by (image seed, file, mutation)."
+    "small database images (5-25 batches compacted into table files with 64 B-1 KiB blocks, 2-9 batches left in the write-ahead log, in one image in four followed by a batch with a 40 KB value whose WAL record spans two log blocks, clean close) on SimFs; every offset of every persistent file up to the per-file budget (an even sample beyond) x {flip one bit, zero the byte, set a random byte}, plus table truncations at sampled lengths; each mutated copy is opened, scanned and probed with gets of every key ever written. Non-trivial = the mutation changed the file; distinct by (image seed, file, mutation)."
 }
 
 pub fn run(tier: &str, seed: u64, replay: Option<&str>, shard: Option<ShardArgs>) -> Report {
